@@ -3,9 +3,9 @@
 From Coq Require Import ExtrOcamlBasic.
 From Model Require Import Engine.
 From Spec Require Import FindSpec.
-From Model Require Import BufFile Glob Cli Json.
+From Model Require Import BufFile Glob Cli Json Parser.
 Extraction Language OCaml.
 Extraction "model.ml" compile_ast run_commands run_find replace_output canon_env canon_value
   check_ok eval_expr run_program init_pstate transform_env splice itoa_nat itoa_Z atoi
   find_matches exprs_to_list pstmts_to_list vm_fuel_default
-  resolve_program init_gstate spec_find_all rd_run rd_new pm get_file_list split_slash decide compact indent matches_json.
+  resolve_program init_gstate spec_find_all rd_run rd_new pm get_file_list split_slash decide compact indent matches_json lex parse parse_source.
